@@ -11,6 +11,9 @@ Decided (structural):
  * sibling iterators: LTermIter::next and LTermIterMut::next yield the head of a Cons and continue
    with its tail unless that is Empty, end on Empty, yield an improper tail once - and never yield
    from a cursor cell that has already been emptied (typestate of the Option cursor).
+ (round 5) literal comparisons: the 40 PartialEq impls between LTerm / LValue / LResult and Rust literals are
+   siblings of one truth table; eq arms conjoin equalities only; compound eq / hash helpers and derive templates
+   (with C20).
 """
 import hirwalk
 import streams
@@ -75,6 +78,8 @@ def check_eq_hash(ctx, lib, rule):
                     if a[3] != b_[3] or {a[1], b_[1]} != {S, O}:
                         ok = False
         ctx.expect(ok, rule, key + "|pairwise", site_of(ef), "variant %s: payload k of self must be compared with payload k of other" % v)
+        neg = [q for q in sym.subterms(body) if (q[0] == "binop" and q[1] in ("Ne", "Lt", "Gt", "Le", "Ge", "BitXor")) or (q[0] == "unop" and q[1] == "Not") or (q[0] == "call" and isinstance(q[1], str) and q[1].split("::")[-1] == "ne")]
+        ctx.expect(not neg, rule, key + "|equalities-only", site_of(ef), "variant %s: the arm may only conjoin equalities of payloads; found %s" % (v, [show(q, maxdepth=3)[:50] for q in neg][:2]))
         if v == "Var":
             ctx.expect(hashed == {0} and cmp_s == {0}, rule, key + "|id-only", site_of(ef), "variables are compared and hashed by id only (never by name): hashed %s compared %s" % (sorted(hashed), sorted(cmp_s)))
         if v == "Cons":
@@ -433,9 +438,17 @@ def run(ctx, fb, cfg):
     import termkinds
 
     termkinds.check_term_kinds(ctx, lib, R + "K5.term-kinds")
+    termkinds.check_literal_comparisons(ctx, lib, R + "K5.literal-comparisons")
     # `==` / hash on compound terms go through the blanket CompoundEq / CompoundHash helpers and the
     # library's compound impls (shared with C20): two compounds of different types are never equal
     import C15
     import C20
 
     C20.check_library(C15._Prefixed(ctx, "C21"), lib)
+    # ... and the PartialEq / Hash the derive generates for #[compound] structs compare self with other, field by field
+    if cfg == "lib-default":
+        import macrolib
+
+        S = macrolib.load_sem(ctx, fb)
+        if S is not None:
+            C20.check_derive(C15._Prefixed(ctx, "C21"), S)
